@@ -124,6 +124,13 @@ def configs(tier, seed):
                 cfg.pop("async_")
                 out.append(cfg)
 
+    # long runs: synchronous Hyperband / DEHB beyond their first bracket, PBT with a full population, many promotions
+    for kind in ("shb", "dehb", "pbt", "hb-promotion", "hb-pasha", "moasha"):
+        for prof in (tunerx.PROFILES[0], tunerx.PROFILES[7], tunerx.PROFILES[2]):
+            for W in (2, 3):
+                out.append(dict(kind=kind, W=W, R=4, mode="min", seed=seed, profile=prof, k=1 if tier == "quick" else 2,
+                                stop={"max_num_trials_started": 10}, F=1, faults=("crash", "ext_stop"), wait=True, mra=(W == 2),
+                                max_exec=120 if tier == "quick" else 2500, loop_cap=400, **{"async": True}))
     # the real simulator backend (tables, delays, outside-time choices): a sample of the C10 configurations
     from . import c10
     sims = c10.configs(tier, seed)
